@@ -28,8 +28,28 @@ let deb822_parse (fs : string list) : string =
   let strict = res_str (fun t -> "OK:" ^ hx (text t) ^ ":" ^ doc_items_s (doc_items t)) (from_str s) in
   Printf.sprintf "lex=%s|%s|strict=%s" lx rel strict
 
+(* a record any of whose parts is HANG is HANG as a whole (the harness can only kill the whole case) *)
+let whole_hang (parts : string list) (r : string) = if List.mem "HANG" parts then "HANG" else r
+
+let rtokens_s (ts : (rkind * n list) list) =
+  cat "," (List.map (fun (k, s) -> string_of_int (int_of_n (rkind_code k)) ^ ":" ^ hx s) ts)
+
+(* stream rel-parse: fields = [hex input] *)
+let rel_parse (fs : string list) : string =
+  let s = str_of_hex (List.nth fs 0) in
+  let lx = res_str rtokens_s (rlex s) in
+  let relaxed allow = res_str (fun (t, n) -> Printf.sprintf "%s:%d:%d" (hx (text t)) (int_of_nat n) (int_of_nat (depth t)))
+      (parse_relaxed s allow) in
+  let r0 = relaxed false and r1 = relaxed true in
+  let strict = res_str (fun t -> "OK:" ^ hx (text t)) (relations_from_str s) in
+  let ent = res_str (fun t -> "OK:" ^ hx (text t)) (entry_from_str s) in
+  let rel = res_str (fun t -> "OK:" ^ hx (text t)) (relation_from_str s) in
+  whole_hang [lx; r0; r1; strict; ent; rel]
+    (Printf.sprintf "lex=%s|r0=%s|r1=%s|strict=%s|entry=%s|relation=%s" lx r0 r1 strict ent rel)
+
 let streams : (string * (string list -> string)) list ref = ref [
   ("deb822-parse", deb822_parse);
+  ("rel-parse", rel_parse);
 ]
 
 let () =
